@@ -390,6 +390,7 @@ def _child_epoch(model, base, work, opts, steps, carry):
     """Runs inside the forked child: execute steps until a Restart; returns (n_done, mismatches, samples)."""
     ep = Epoch(model, Path(base), Path(work), opts)
     done = 0
+    other = None
     for act, exp in steps:
         if act['name'] == 'Restart':
             done += 1
@@ -405,9 +406,15 @@ def _child_epoch(model, base, work, opts, steps, carry):
             cat = 'construct' if act['name'] == 'NewChain' else 'error'
             mm = [(cat, f"{act['name']} raised {type(e).__name__}: {e}"), ('trace', tb[-1500:])]
         done += 1
+        rel = opts.get('relevant')
+        if mm and rel is not None and not any(c in rel for c, _ in mm):
+            # a divergence in an observation that belongs to another property: remember it, keep following the
+            # behaviour - the divergence this property cares about may show a step later
+            other = other or mm
+            continue
         if mm:
             return done, mm, (ep.producer, ep.genof, ep.stepno)
-    return done, [], (ep.producer, ep.genof, ep.stepno)
+    return done, (other or []), (ep.producer, ep.genof, ep.stepno)
 
 
 def _final_check(model, base, work, final_state):
@@ -442,6 +449,7 @@ def replay(model: Model, behaviour, opts=None, final=True, tag='b'):
     root = scratch(f'replay-{os.getpid()}-{tag}')
     base, work = root / 'data', root / 'work'
     base.mkdir(exist_ok=True)
+    other_mm = None
     try:
         i = 0
         while i < len(behaviour):
@@ -453,6 +461,10 @@ def replay(model: Model, behaviour, opts=None, final=True, tag='b'):
                                                  for d, e in producer.items()})
             except ChildCrashed as e:
                 return dict(mismatches=[('error', f'interpreter died: {e}')], at=i, steps=len(behaviour))
+            rel = opts.get('relevant')
+            if mm and rel is not None and not any(c in rel for c, _ in mm):
+                other_mm = other_mm or (mm, i + done - 1)
+                mm = []
             if mm:
                 return dict(mismatches=mm, at=i + done - 1, steps=len(behaviour))
             i += done
@@ -460,6 +472,8 @@ def replay(model: Model, behaviour, opts=None, final=True, tag='b'):
             mm = run_forked(_final_check, model, str(base), str(work), behaviour[-1][1])
             if mm:
                 return dict(mismatches=mm, at=len(behaviour), steps=len(behaviour))
+        if other_mm:
+            return dict(mismatches=other_mm[0], at=other_mm[1], steps=len(behaviour))
         return dict(mismatches=[], at=None, steps=len(behaviour))
     finally:
         shutil.rmtree(root, ignore_errors=True)
